@@ -102,9 +102,12 @@ def check_lookups(res, ctx, batch):
         d = R.diff_hist(m, i)
         if d is not None:
             st["correspondence_diffs"] += 1
-            ctx["corr_diffs"].append((hc, d))
+            ctx["corr_diffs"].append((dict(hc, replay_mode="lookups",
+                                           replay_case=[name, truth, today, avail, lookups, oracle, cache]), d))
         if i["status"] != "ok":
-            res.violation("failing-input", "look-up panicked: %s" % i.get("panic"), {"input": hc})
+            res.violation("failing-input", "look-up panicked: %s" % i.get("panic"),
+                          {"input": hc, "replay_mode": "lookups",
+                           "replay_case": [name, truth, today, avail, lookups, oracle, cache]})
             continue
         # URL series per year
         for y, s in i["runs"][0]["requests"]:
@@ -132,7 +135,8 @@ def check_lookups(res, ctx, batch):
                     "look-up of %s (today %s): implementation gives %s, the rule gives %s" % (
                         R.iso(dd), R.iso(today), R.ans_str(a), R.ans_str(exp)),
                     {"input": hc, "lookup": dd, "lookup_date": R.iso(dd), "actual_impl": R.ans_str(a),
-                     "expected_spec": R.ans_str(exp), "case": name})
+                     "expected_spec": R.ans_str(exp), "case": name, "replay_mode": "lookups",
+                     "replay_case": [name, truth, today, avail, lookups, oracle, cache]})
                 break
             # the three "never" clauses, literally
             if a[0] == "ok":
@@ -147,7 +151,8 @@ def check_lookups(res, ctx, batch):
                     bad = "a rate that was not published for that day"
                 if bad:
                     res.violation("failing-input", "look-up of %s used %s" % (R.iso(dd), bad),
-                                  {"input": hc, "lookup": dd, "actual_impl": R.ans_str(a)})
+                                  {"input": hc, "lookup": dd, "actual_impl": R.ans_str(a), "replay_mode": "lookups",
+                                   "replay_case": [name, truth, today, avail, lookups, oracle, cache]})
                     break
         if len(ctx["samples"]) < 3 and oracle:
             ctx["samples"].append({"truth": [o["json"] for o in truth][:12], "today": R.iso(today),
@@ -285,7 +290,8 @@ def check_rows(res, ctx, batch):
             same = (mobs[1], mobs[3]) == (iobs[1], iobs[3])     # commission flag not visible in the message
         if not same:
             st["correspondence_diffs"] += 1
-            ctx["corr_diffs"].append((h, "rows: model %s, implementation %s" % (str(mobs)[:300], str(iobs)[:300])))
+            ctx["corr_diffs"].append((dict(h, replay_mode="rows", replay_case=[truth, today, avail, rows]),
+                                      "rows: model %s, implementation %s" % (str(mobs)[:300], str(iobs)[:300])))
         # oracle: the decision rules
         pub = R.pub_of(truth, avail)
         exp = []
@@ -303,13 +309,15 @@ def check_rows(res, ctx, batch):
             for c, f in ((r["cur"], r["fx"]), (r["ccur"], r["cfx"])):
                 st["pair-%s-%s" % ((c or "none").upper(), "explicit" if f is not None else "none")] += 1
         if iobs[0] == "panic":
-            res.violation("failing-input", "rows: panic %s" % (iobs[1],), {"input": h})
+            res.violation("failing-input", "rows: panic %s" % (iobs[1],),
+                          {"input": h, "replay_mode": "rows", "replay_case": [truth, today, avail, rows]})
         elif want_err != (iobs[0] == "err"):
             res.violation("failing-input",
                           "rows: the decision rules %s, the implementation %s" % (
                               "demand an error" if want_err else "give rates for every row",
                               "accepted the file" if iobs[0] == "ok" else "stopped: " + io.get("err", "")),
-                          {"input": h, "expected_spec": str(exp), "actual_impl": str(iobs)[:500]})
+                          {"input": h, "expected_spec": str(exp), "actual_impl": str(iobs)[:500],
+                           "replay_mode": "rows", "replay_case": [truth, today, avail, rows]})
         elif not want_err:
             for k, ((tx, cm), got) in enumerate(zip(exp, iobs[1])):
                 etx = tx[1] if tx[0] == "rate" else Fraction(1)
@@ -318,7 +326,8 @@ def check_rows(res, ctx, batch):
                     res.violation("failing-input",
                                   "row %d (trade date %s): rates used %s, the decision rules give %s" % (
                                       k, R.iso(rows[k]["td"]), got, (etx, ecm)),
-                                  {"input": h, "row": k, "expected_spec": str((etx, ecm)), "actual_impl": str(got)})
+                                  {"input": h, "row": k, "expected_spec": str((etx, ecm)), "actual_impl": str(got),
+                                   "replay_mode": "rows", "replay_case": [truth, today, avail, rows]})
                     break
             ctx["seen"].add(("rows", hashlib.sha1(h["csv"].encode()).hexdigest()))
             if any(r["cur"] and r["cur"].upper() == "USD" and r["fx"] is None for r in rows):
@@ -426,7 +435,8 @@ def run(res, ctx):
         hc, d = ctx["corr_diffs"][0]
         res.violation("broken-correspondence", "model and implementation differ: " + d,
                       {"theorem_or_projection": "correspondence projection C12 (answer per look-up: date and rate as exact rational or error class; series requested per year; rows: rates or error class)",
-                       "input": hc, "difference": d, "differing_cases": len(ctx["corr_diffs"])}, found_input=False)
+                       "input": hc, "difference": d, "differing_cases": len(ctx["corr_diffs"]),
+                       "replay_mode": hc.get("replay_mode"), "replay_case": hc.get("replay_case")}, found_input=False)
     res.coverage.update({
         "evaluations": st["evaluations"],
         "distinct_nontrivial": st["distinct_nontrivial"],
@@ -443,3 +453,21 @@ def run(res, ctx):
         "premise of the rule: observations of a year arrive in ascending date order, one per day, none dated after today (the Bank of Canada does not publish future rates)",
         "rust_decimal division = fit and time crate calendar = Model/Rates.v year_of/jan1 are assumed oracles, re-validated on every run",
     ]
+
+
+def replay(res, ctx, path):
+    import common
+    rep = json.load(open(path))
+    ctx.update(stats=collections.Counter(), seen=set(), samples=[], corr_diffs=[])
+    r2 = common.Result("C12", ctx["tier"], ctx["seed"])
+    mode, case = rep.get("replay_mode"), rep.get("replay_case")
+    if mode == "lookups":
+        name, truth, today, avail, lookups, oracle, cache = case
+        check_lookups(r2, ctx, [(name, [R.load_obs(o) for o in truth], today, avail, lookups, oracle, cache)])
+    elif mode == "rows":
+        truth, today, avail, rows = case
+        check_rows(r2, ctx, [([R.load_obs(o) for o in truth], today, avail, rows)])
+    else:
+        print("replay: this replay file names no input (%s)" % rep.get("what", "")[:200])
+        return 1
+    return R.replay_report(r2, ctx, mode)
